@@ -415,6 +415,64 @@ pub fn run(ctx: &Ctx) -> i32 {
             ));
         }
     }
+    // render histories: the program a compiled expression hands out for a device is a function of
+    // the expression and that device alone - not of what the same object rendered before.  Every
+    // sequence of <= 3 devices over 4, on one compiled object; the k-th answer (program and table)
+    // must be the answer of a freshly compiled equal expression for that device.
+    {
+        const DEVS: [&str; 4] = ["/dev/mdt0", "/dev/mdt1", "", "/dev/mapper/fs-MDT0000"];
+        let more = ["-true", "-print0", "-printf '%H %p\\n'", "-threads 3 -name x"];
+        for text in EXPRS.iter().copied().chain(more) {
+            let (o, e) = match parse_real(text) {
+                P::Ok(o, e) => (o, e),
+                _ => continue,
+            };
+            let fresh: Vec<Option<(String, String)>> = DEVS
+                .iter()
+                .map(|d| match compile_render(&e, &o, d) {
+                    C::Ok((t, io)) => Some((normalise_clock(&t), format!("{io:?}"))),
+                    _ => None,
+                })
+                .collect();
+            if fresh.iter().any(|f| f.is_none()) {
+                continue;
+            }
+            for len in 2..=3u32 {
+                for mut idx in 0..4usize.pow(len) {
+                    let mut seq = vec![];
+                    for _ in 0..len {
+                        seq.push(idx % 4);
+                        idx /= 4;
+                    }
+                    acc.states += 1;
+                    acc.transitions += len as u64;
+                    let (e2, o2, seq2) = (e.clone(), &o, seq.clone());
+                    let got = std::panic::catch_unwind(std::panic::AssertUnwindSafe(move || {
+                        let c = lipe_find_parser::compile(&e2, o2).ok()?;
+                        Some(seq2.iter().map(|d| (normalise_clock(&c.scheme(DEVS[*d])), format!("{:?}", crate::subject::io_map_of(c.io_map())))).collect::<Vec<_>>())
+                    }));
+                    let wit = json!({"kind": "render-history", "expr": text, "devices": seq.iter().map(|d| DEVS[*d]).collect::<Vec<_>>()});
+                    match got {
+                        Ok(Some(v)) => {
+                            for (k, d) in seq.iter().enumerate() {
+                                if Some(&v[k]) != fresh[*d].as_ref() {
+                                    let what = if v[k].1 != fresh[*d].as_ref().unwrap().1 { "table" } else { "program" };
+                                    acc.violate(Violation::new(
+                                        format!("C15:rendering-depends-on-earlier-renderings:{what}"),
+                                        format!("{:?} compiled once and rendered for {:?} in turn: answer {} (for {:?}) differs from what a freshly compiled equal expression renders for that device", short(text), seq.iter().map(|d| DEVS[*d]).collect::<Vec<_>>(), k + 1, DEVS[*d]),
+                                        wit.clone(),
+                                    ));
+                                    break;
+                                }
+                            }
+                        }
+                        Ok(None) => {}
+                        Err(_) => acc.violate(Violation::new("C15:call-failed", format!("rendering {:?} several times panicked", short(text)), wit)),
+                    }
+                }
+            }
+        }
+    }
     // equal trees compile to equal programs whether or not their sub-trees are shared nodes
     {
         use lipe_find_parser::ast::{Expression, Operator};
@@ -560,27 +618,54 @@ pub fn run(ctx: &Ctx) -> i32 {
         ("POSIXLY_CORRECT", "1"), ("FIND_BLOCK_SIZE", "1024"), ("BLOCK_SIZE", "1024"), ("LIPE_DEBUG", "1"), ("LIPE_THREADS", "3"), ("LIPE_FIND_DEBUG", "1"),
         ("DEBUG", "1"), ("CI", "true"), ("SOURCE_DATE_EPOCH", "1"), ("PATH", "/nonexistent"),
     ];
+    // expressions whose words look like something a shell or a library would expand from the
+    // environment (tilde, variables, the working directory): to the parser they are plain text
+    let envish: Vec<String> = vec![
+        "-fprint ~/out -o -fprint0 '~/out0' -o -fprintf \"~/fmt\" '%p\\n'".into(),
+        "-name '~' -o -name '~/x' -o -path '$HOME/*' -o -ipath '${PWD}/x' -o -iname '$USER' -print".into(),
+        "-fprint '$HOME/list' -o -fprint0 ./rel -o -fprint ../up -o -fprint '~root/x' -o -fprintf '$TMPDIR/t' '%f'".into(),
+        "-pool '$USER' -xattr '~/a' -printf '~/%p $HOME ${LANG}\\n'".into(),
+    ];
+    let envish_json = serde_json::to_string(&envish).unwrap_or_default();
+    let child = |f: &dyn Fn(&mut std::process::Command)| -> Option<String> {
+        let mut c = std::process::Command::new(exe("release"));
+        c.args(["child", "c15"]).env("FPVERIF_C15_EXTRA", &envish_json);
+        f(&mut c);
+        c.output().ok().map(|o| String::from_utf8_lossy(&o.stdout).to_string())
+    };
+    let plain = child(&|_| {}).unwrap_or_default();
+    if plain.lines().count() != REFUSED.len() + EXPRS.len() + envish.len() || plain.lines().any(|l| l.contains("\"error\"")) {
+        println!("MACHINERY-ERROR C15 child did not answer every expression of the environment family");
+        return 2;
+    }
     let mut env_dumps: Vec<(String, String)> = vec![];
     for (k, v) in &envs {
-        if let Ok(o) = std::process::Command::new(exe("release")).args(["child", "c15"]).env(k, v).output() {
-            env_dumps.push((format!("{k}={v}"), String::from_utf8_lossy(&o.stdout).to_string()));
+        if let Some(o) = child(&|c| {
+            c.env(k, v);
+        }) {
+            env_dumps.push((format!("{k}={v}"), o));
         }
     }
     for dir in ["/", "/usr", "/proc/self"] {
-        if let Ok(o) = std::process::Command::new(exe("release")).args(["child", "c15"]).current_dir(dir).output() {
-            env_dumps.push((format!("cwd={dir}"), String::from_utf8_lossy(&o.stdout).to_string()));
+        if let Some(o) = child(&|c| {
+            c.current_dir(dir);
+        }) {
+            env_dumps.push((format!("cwd={dir}"), o));
         }
     }
-    if let Ok(o) = std::process::Command::new(exe("release")).args(["child", "c15"]).env_clear().output() {
-        env_dumps.push(("empty environment".into(), String::from_utf8_lossy(&o.stdout).to_string()));
+    if let Some(o) = child(&|c| {
+        c.env_clear().env("FPVERIF_C15_EXTRA", &envish_json);
+    }) {
+        env_dumps.push(("empty environment".into(), o));
     }
     for (what, d) in &env_dumps {
         acc.states += 1;
         acc.transitions += 1;
-        if !dumps.is_empty() && d != &dumps[0] {
+        if d != &plain {
+            let which = d.lines().zip(plain.lines()).position(|(x, y)| x != y).unwrap_or(0);
             acc.violate(Violation::new(
                 "C15:result-depends-on-the-process-environment",
-                format!("with {what} the five expressions parse/compile differently than in the plain environment"),
+                format!("with {what} answer {which} of the fixed list of expressions (refusals, the five expressions, four with tilde / variable words) differs from the plain environment's: {}", short(d.lines().nth(which).unwrap_or(""))),
                 json!({"kind": "environment", "setting": what}),
             ));
         }
@@ -657,6 +742,32 @@ pub fn replay(w: &Value) -> Vec<Violation> {
         Ok(v) => v,
         Err(e) => return vec![Violation::new("C15:call-failed", e, w.clone())],
     };
+    if w["kind"] == "render-history" {
+        let text = w["expr"].as_str().unwrap_or("");
+        let devs: Vec<String> = w["devices"].as_array().map(|a| a.iter().filter_map(|x| x.as_str().map(String::from)).collect()).unwrap_or_default();
+        let mut out = vec![];
+        if let P::Ok(o, e) = parse_real(text) {
+            let r = std::panic::catch_unwind(std::panic::AssertUnwindSafe(|| {
+                let c = lipe_find_parser::compile(&e, &o).ok()?;
+                Some(devs.iter().map(|d| (normalise_clock(&c.scheme(d)), format!("{:?}", crate::subject::io_map_of(c.io_map())))).collect::<Vec<_>>())
+            }));
+            match r {
+                Ok(Some(v)) => {
+                    for (k, d) in devs.iter().enumerate() {
+                        if let C::Ok((t, io)) = compile_render(&e, &o, d) {
+                            if v[k] != (normalise_clock(&t), format!("{io:?}")) {
+                                out.push(Violation::new("C15:rendering-depends-on-earlier-renderings", format!("answer {} (for {d:?}) differs from a fresh compile's", k + 1), w.clone()));
+                                break;
+                            }
+                        }
+                    }
+                }
+                Ok(None) => {}
+                Err(_) => out.push(Violation::new("C15:call-failed", "rendering panicked".to_string(), w.clone())),
+            }
+        }
+        return out;
+    }
     if w["kind"] == "parse-pair" {
         let inputs = vec![w["first"].as_str().unwrap_or("").to_string(), w["second"].as_str().unwrap_or("").to_string()];
         return crate::subject::parse_history_pairs(&inputs)
